@@ -588,6 +588,9 @@ func cxLongText(r *Rng, typ string, n int) string {
 		case n > 45:
 			return "urn:uuid:" + cxUUText(r.Next(), r.Next()) + strings.Repeat("0", n-45)
 		}
+		if n > 36 {
+			return cxUUText(r.Next(), r.Next()) + strings.Repeat("0", n-36)
+		}
 		return cxUUText(r.Next(), r.Next())[:n]
 	}
 	return ""
@@ -1392,11 +1395,26 @@ type cxG struct {
 	c      *Ctx
 	calls  int64
 	panics int64
+	big    bool // measure the allocation of every single call (inputs of several KiB)
+	worst  uint64
 }
 
 func (g *cxG) run(name string, repro func() string, f func()) {
+	var a0 uint64
+	if g.big {
+		a0 = cxTotalAlloc()
+	}
 	t0 := time.Now()
 	defer func() {
+		if g.big {
+			d := cxTotalAlloc() - a0
+			if d > g.worst {
+				g.worst = d
+			}
+			if d > cxAllocLimit {
+				g.c.Fail("C18.alloc."+name, repro(), "one call allocated %d bytes", d)
+			}
+		}
 		if r := recover(); r != nil {
 			g.panics++
 			g.c.Fail("C18.panic."+name, repro(), "panic: %v", r)
@@ -1541,7 +1559,10 @@ func cxTotality(c *Ctx, g *cxG, in, in2 string, mode int, emit int) {
 	defer func() { size.MaxObjectKeys = oldMK; restore() }()
 	h, h2 := hx([]byte(in)), hx([]byte(in2))
 	bin, bin2 := []byte(in), []byte(in2)
-	measure := len(in) <= 100<<10 && len(in2) <= 100<<10
+	// small inputs: one allocation measurement around all calls; inputs of several KiB: one per call
+	measure := len(in) < 4096 && len(in2) < 4096
+	g.big = !measure && len(in) <= 100<<10 && len(in2) <= 100<<10
+	defer func() { g.big = false }()
 	var a0 uint64
 	if measure {
 		a0 = cxTotalAlloc()
@@ -1690,7 +1711,7 @@ func cxTotality(c *Ctx, g *cxG, in, in2 string, mode int, emit int) {
 	})
 	if measure {
 		if d := cxTotalAlloc() - a0; d > cxAllocLimit {
-			c.Fail("C18.alloc", zline, "%d bytes allocated while parsing inputs of %d and %d bytes", d, len(in), len(in2))
+			c.Fail("C18.alloc", zline, "%d bytes allocated by one round of calls on inputs of %d and %d bytes", d, len(in), len(in2))
 		}
 	}
 	if !bytes.Equal(bin, []byte(in)) || !bytes.Equal(bin2, []byte(in2)) {
@@ -1886,6 +1907,9 @@ func cxLimitContract(c *Ctx, g *cxG) {
 					control := cxDistinct(c.R, len(in))
 					for ei := range entries {
 						e := &entries[ei]
+						if L != 0 && L < 6 && strings.Contains(e.name, "ok") {
+							continue // the fixed valid second argument of the two-argument helpers must fit
+						}
 						line := ""
 						if e.line != nil {
 							line = e.line(L, in)
@@ -1936,7 +1960,249 @@ func cxLimitContract(c *Ctx, g *cxG) {
 	}
 }
 
-// PLACEHOLDER-C18C
-func propC18(c *Ctx) {}
+var cxCmpStrings = []string{"", "ééé", "é", "éa", "aé", "a", "b", "1", "01", "001", "2", "10", "1a", "a1", "a01", "a.b", "a..b", ".", "..", "a.", ".a", "\xff", "\xff\xfe", "\x00", "-", "0", "00",
+	"日本", "é.é", "é.1", "1.é", "ééé.ééé", "alpha", "alpha.1", "alpha.beta", "beta.2", "beta.11", "rc-1", "rc.1", "a-b", "A", "Z", "z", "١", "a\x00b", "9999999999999999999999", "99999999999999999999999",
+	"18446744073709551615", "18446744073709551616", " ", "a b", "+", "a+b", "𝟙", "\xc3", "\xa9", "é\xc3", "0x1", "-1", "1-", "e", "ë", "é"}
+
+// cxSpecific runs the hand-picked totality cases.
+func cxSpecific(c *Ctx, g *cxG) {
+	// comparison of arbitrary strings, multi-byte runes included
+	strs := append([]string{}, cxCmpStrings...)
+	strs = append(strs, strings.Repeat("9", 100), strings.Repeat("é", 50), strings.Repeat("a.", 60)+"a", strings.Repeat("0", 64)+"1")
+	for i, a := range strs {
+		for j, b := range strs {
+			ha, hb := hx([]byte(a)), hx([]byte(b))
+			pl := "sem.cmppre " + ha + " " + hb
+			var r1, r2 int
+			g.run("sem.DefaultComparePreRelease", func() string { return pl }, func() {
+				r1 = sem.DefaultComparePreRelease(a, b)
+				r2 = sem.DefaultComparePreRelease([]byte(a), []byte(b))
+			})
+			if r1 != r2 || r1 < -1 || r1 > 1 {
+				c.Fail("C18.sem.cmppre.range", pl, "%d %d", r1, r2)
+			}
+			vl := fmt.Sprintf("sem.cmp 1 2 3 %s %s 1 2 3 %s %s", ha, hb, hb, ha)
+			g.run("sem.Ver.Compare", func() string { return vl }, func() {
+				v := sem.Ver{Major: 1, Minor: 2, Patch: 3, PreRelease: a, Build: b}
+				w := sem.Ver{Major: 1, Minor: 2, Patch: 3, PreRelease: b, Build: a}
+				v.Compare(w)
+				v.Latest(w)
+				v.Valid()
+			})
+			if (i*len(strs)+j)%3 == int(c.Seed%3) || i < 8 && j < 8 {
+				c.Op(pl)
+				c.Op(vl)
+			}
+			if j == (i*5+1)%len(strs) || j == i {
+				c.Op("sem.valid " + ha + " " + hb)
+				for _, e := range []string{"Parse", "ParseVersion", "ParseTag"} {
+					c.Op(fmt.Sprintf("sem.cmpstr %s 0 %s %s", e, hx([]byte("1.0.0-"+a)), hx([]byte("v1.0.0-"+b))))
+					c.Op(fmt.Sprintf("sem.latest %s 0 %s %s", e, hx([]byte("v1.0.0-"+a+"+"+b)), hx([]byte("v1.0.0-"+b))))
+				}
+			}
+		}
+	}
+	c.NT(int64(len(strs) * len(strs)))
+	// date.UnmarshalBinary on every length 0..20
+	for l := 0; l <= 20; l++ {
+		for _, first := range []int{-1, 0, 1, 2, 255} {
+			for _, fill := range []int{0, 1, 12, 255, -1} {
+				in := make([]byte, l)
+				for i := range in {
+					if fill < 0 {
+						in[i] = byte(c.R.Next())
+					} else {
+						in[i] = byte(fill)
+					}
+				}
+				if l > 0 && first >= 0 {
+					in[0] = byte(first)
+				}
+				line := "date.unbin " + hx(in)
+				var err error
+				d := date.New(1999, 9, 9)
+				g.run("date.UnmarshalBinary", func() string { return line }, func() { err = d.UnmarshalBinary(in) })
+				switch {
+				case l == 0:
+					if !errors.Is(err, date.ErrInvalidLength) {
+						c.Fail("C18.date.unbin", line, "%v", err)
+					}
+				case in[0] != 1:
+					if !errors.Is(err, date.ErrUnsupportedVersion) {
+						c.Fail("C18.date.unbin", line, "%v", err)
+					}
+				case l != 7:
+					if !errors.Is(err, date.ErrInvalidLength) {
+						c.Fail("C18.date.unbin", line, "%v", err)
+					}
+				}
+				if err != nil && !d.Equal(date.New(1999, 9, 9)) {
+					c.Fail("C18.date.unbin.recv", line, "receiver %v", d)
+				}
+				c.Op(line)
+				cxHistOp(c, "hist date T:323032342d30322d3239 B:"+hx(in)+" B:01000007e8021d B:"+hx(in))
+			}
+		}
+	}
+	c.NT(21 * 25)
+	// date.Scan with nil / int / string / []byte / time values
+	tm := time.Date(2024, 2, 29, 23, 59, 59, 999999999, time.FixedZone("z", 3600))
+	var nilT *time.Time
+	var nilI any
+	for i, v := range []any{nil, nilI, nilT, &tm, 0, int64(1709164800), uint8(1), "2024-02-29", "", []byte("2024-02-29"), []byte(nil), 1.5, true, struct{}{}, []any{tm}, map[string]any{}, date.New(2024, 2, 29), errors.New("x"),
+		json.Number("1"), namedString("2024-02-29"), func() {}, make(chan int), time.Duration(5), time.UTC} {
+		d := date.New(1999, 9, 9)
+		var err error
+		g.run("date.Scan", func() string { return fmt.Sprintf("hist date S:x (value #%d %T)", i, v) }, func() { err = d.Scan(v) })
+		if !errors.Is(err, date.ErrInvalidType) || !d.Equal(date.New(1999, 9, 9)) {
+			c.Fail("C18.date.scan.type", fmt.Sprintf("Scan(%T)", v), "err %v receiver %v", err, d)
+		}
+	}
+	zones := []*time.Location{time.UTC, time.FixedZone("z", 3600), time.FixedZone("z", -12*3600), time.FixedZone("z", 14*3600), time.FixedZone("z", 1), time.FixedZone("z", -86399)}
+	for _, sec := range []int64{0, -1, 1, cxZeroUnix, cxZeroUnix - 1, cxZeroUnix + 1, 1709164800, 253402300799, 253402300800, -62167219200, -62167219201, 1 << 40, -(1 << 40), 1 << 55, -(1 << 55), math.MaxInt64, math.MinInt64, math.MaxInt64 - 62135596800} {
+		for _, nsec := range []int64{0, 1, 999999999} {
+			for zi, z := range zones {
+				t := time.Unix(sec, nsec).In(z)
+				d := date.New(1999, 9, 9)
+				var err error
+				g.run("date.Scan", func() string {
+					return fmt.Sprintf("hist date S:t:%d:%d:%d", sec, nsec, []int{0, 3600, -43200, 50400, 1, -86399}[zi])
+				}, func() { err = d.Scan(t) })
+				if err != nil {
+					c.Fail("C18.date.scan.time", fmt.Sprint(t), "%v", err)
+				}
+				if y, m, dd := t.Date(); !t.IsZero() && y >= -999999999 && y <= 999999999 {
+					if gy, gm, gd := d.Date(); gy != y || gm != m || gd != dd {
+						c.Fail("C18.date.scan.value", fmt.Sprint(t), "%v", d)
+					}
+				}
+				if sec > -(1<<40)-1 && sec < 1<<40+1 {
+					cxHistOp(c, fmt.Sprintf("hist date S:t:%d:%d:%d S:x", sec, nsec, []int{0, 3600, -43200, 50400, 1, -86399}[zi]))
+				}
+			}
+		}
+	}
+	// size: deep nesting and long runs with the limit switched off
+	deep := []struct {
+		in   string
+		want string // "" = only totality
+	}{
+		{strings.Repeat("[", 10000), "err"},
+		{strings.Repeat("{", 10000), "err"},
+		{`{"x":` + strings.Repeat("[", 10000), "err"},
+		{`{"x":` + strings.Repeat("[", 10000) + strings.Repeat("]", 10000) + `,"value":1,"unit":"B"}`, "1"},
+		{`{"x":` + strings.Repeat(`{"a":`, 5000) + "1" + strings.Repeat("}", 5000) + `,"value":2,"unit":"KiB"}`, "2048"},
+		{`{"x":` + strings.Repeat(`[{"a":`, 3000) + "null" + strings.Repeat("}]", 3000) + `,"unit":"MB","value":3}`, "3000000"},
+		{strings.Repeat(`{"value":`, 3000), "err"},
+		{`"` + strings.Repeat(`A`, 5000) + `"`, "err"},
+		{`"` + strings.Repeat(" ", 30000) + `5 kB"`, "5000"},
+		{strings.Repeat(" ", 50000) + "7", "7"},
+		{`{"value":1,"unit":"B"` + strings.Repeat(" ", 20000) + "}", "1"},
+		{`{"value":1,"unit":"B"}` + strings.Repeat("\n", 20000), "1"},
+		{`{"value":1,"unit":"B"}` + strings.Repeat("]", 10000), "err"},
+		{strings.Repeat("9", 100000), "err"},
+		{strings.Repeat("0", 90000) + "12", ""},
+		{`{` + strings.Repeat(`"k":[],`, 9000) + `"value":1,"unit":"B"}`, "1"},
+		{`{"value":1,"unit":"` + strings.Repeat("K", 60000) + `"}`, "err"},
+	}
+	for di, dc := range deep {
+		for _, r := range []size.Rule{6, 14, 2, 4, 0, 1} {
+			line := fmt.Sprintf("size.parse 0 0 %d %s", r, hx([]byte(dc.in)))
+			restore := cxSetLimits(0, 0, 0, 0, 0)
+			omk := size.MaxObjectKeys
+			size.MaxObjectKeys = 0
+			a0 := cxTotalAlloc()
+			var v size.Size
+			var err error
+			g.big = true
+			g.run("size.deep", func() string { return fmt.Sprintf("size.parse 0 0 %d <deep case %d, %d bytes>", r, di, len(dc.in)) }, func() {
+				v, err = size.DefaultParser(dc.in, r)
+				var x size.Size
+				x.UnmarshalJSON([]byte(dc.in))
+				x.UnmarshalText([]byte(dc.in))
+			})
+			g.big = false
+			alloc := cxTotalAlloc() - a0
+			size.MaxObjectKeys = omk
+			restore()
+			if alloc > cxAllocLimit {
+				c.Fail("C18.alloc.deep", fmt.Sprintf("deep case %d", di), "%d bytes allocated for %d input bytes", alloc, len(dc.in))
+			}
+			if errors.Is(err, size.ErrInputTooLong) || errors.Is(err, size.ErrObjectTooBig) {
+				c.Fail("C18.limit.size.zero", fmt.Sprintf("deep case %d", di), "limits are off but: %v", err)
+			}
+			if r == 6 {
+				switch {
+				case dc.want == "err" && err == nil, dc.want != "err" && dc.want != "" && (err != nil || strconv.FormatUint(uint64(v), 10) != dc.want):
+					c.Fail("C18.size.deep.value", fmt.Sprintf("deep case %d rule %d", di, r), "want %s, got %d %v", dc.want, v, err)
+				}
+			}
+			if r == 6 && len(dc.in) <= 70000 {
+				c.Op(line)
+			}
+		}
+	}
+	c.NT(int64(len(deep)))
+	// long inputs into every package with the limits off: time and allocation stay linear
+	pres := []string{"", "1.2.3-", "v1.2.3+", "1", "MM", `{"x":`, `"`}
+	for ui, u := range cxRunUnits {
+		for _, n := range []int{1000, 100 << 10} {
+			in := strings.Repeat(u, n/len(u))
+			for pi, pre := range pres {
+				if n > 1000 && !c.Thorough && pi != (ui+int(c.Seed))%len(pres) {
+					continue
+				}
+				s := pre + in
+				if len(s) > 100<<10 {
+					s = s[:100<<10]
+				}
+				cxTotality(c, g, s, pre+"a", 0, 0)
+			}
+		}
+	}
+}
+
+func propC18(c *Ctx) {
+	defer cxSetDefaults()()
+	g := &cxG{c: c}
+	t0 := time.Now()
+	iters, emit := 9000, 9
+	if c.Thorough {
+		iters, emit = 150000, 4
+	}
+	// 1. seeded random and structured byte strings into every entry point, limits in {0, 1, default, default+1}
+	for i := 0; i < iters; i++ {
+		in := cxCorpus(c.R)
+		if i < len(cxSeeds) {
+			in = cxSeeds[i]
+		}
+		in2 := cxCorpus(c.R)
+		if c.R.Intn(5) == 0 {
+			in2 = cxMutate1(c.R, in)
+		}
+		e := emit
+		if len(in)+len(in2) > 3000 {
+			e = 2
+		}
+		cxTotality(c, g, in, in2, i%4, e)
+	}
+	c.NT(int64(iters))
+	t1 := time.Now()
+	// 2. the limit contract on every entry point
+	cxLimitContract(c, g)
+	t2 := time.Now()
+	// 3. hand-picked cases
+	cxSpecific(c, g)
+	c.Note("guarded calls: %d, panics: %d; largest allocation of one call on an input of up to 100 KiB: %d bytes", g.calls, g.panics, g.worst)
+	c.Note("seconds: random/structured %.1f, limit contract %.1f, specific %.1f", t1.Sub(t0).Seconds(), t2.Sub(t1).Seconds(), time.Since(t2).Seconds())
+	if c.Thorough {
+		cxNativeFuzz(c)
+	} else {
+		c.Note("native go test -fuzz runs in the thorough tier only")
+	}
+}
+
+// PLACEHOLDER-FUZZ
+func cxNativeFuzz(c *Ctx) { c.Note("native fuzzing not implemented") }
 
 var _ = []any{json.Valid, errors.Is, math.MaxInt64, os.Getenv, exec.Command, filepath.Join, runtime.GC} // TEMP-IMPORTS
